@@ -1,8 +1,8 @@
 package main
 
 import (
-	"go/token"
 	"fmt"
+	"go/token"
 	"go/types"
 	"regexp"
 	"sort"
@@ -1364,6 +1364,26 @@ func propC17(w *World, r *Report) {
 	} else {
 		r.Check(m > 0, "V3", "the frame call that consumes a request starts the test file and writes that frame", "-", fmt.Sprintf("%d exit contexts consuming a request (flag %s)", m, reqField))
 	}
+	// ... and only a request starts one: every start of the test file happens in a call that took the request flag from
+	// "requested" (the non-zero value the request method stores) back to idle (0) - the compare-and-swap the other way
+	// round would start a test recording on every frame nobody asked for
+	{
+		var bs *Ctx
+		ns := 0
+		for _, ev := range eventsOfKind(run, "sink:StartRecording", roleTest) {
+			for _, cx := range ev.Ctxs {
+				ns++
+				if !(cx.Ghosts["cas:"+reqField] == 1 && cx.Ghosts["casfrom:"+reqField] != 0 && cx.Ghosts["casto:"+reqField] == 0) && bs == nil {
+					bs = cx
+				}
+			}
+		}
+		if bs != nil {
+			r.Fail("V3", "a test recording is started only by a pending request (flag taken from requested to idle)", "-", describeCtx(bs), bs.Trace)
+		} else {
+			r.Check(ns > 0, "V3", "a test recording is started only by a pending request (flag taken from requested to idle)", "-", fmt.Sprintf("%d start contexts", ns))
+		}
+	}
 	checkAuxIndependence(w, r, runs, roles)
 	checkAuxWiring(w, r, runs)
 	checkCleanupOnlyAtStartup(w, r, "V4") // no recorder unlinks the in-progress file of the continuous / test recording
@@ -1553,6 +1573,10 @@ func checkAuxWiring(w *World, r *Report, runs *motionRuns) {
 							this := sin
 							skipped := returnsWithout(setter, func(x ssa.Instruction) bool { return x == this })
 							r.Check(!skipped, "V5", "constant-recorder mode: "+structOf(fa.X.Type()).Field(fa.Field).Name()+" is set on every path of "+setter.Name(), w.InstrPos(sin), "")
+							if bt, isB := structOf(fa.X.Type()).Field(fa.Field).Type().Underlying().(*types.Basic); isB && bt.Info()&types.IsBoolean != 0 {
+								k, isC := sst.Val.(*ssa.Const)
+								r.Check(isC && k.Value != nil && k.Value.ExactString() == "true", "V5", "constant-recorder mode: the mode flag is switched ON", w.InstrPos(sin), newTermEnv(w).termOf(sst.Val).String())
+							}
 						}
 					}
 					r.Check(nSet >= 2, "V5", "constant-recorder mode sets its flag and its folder", w.Pos(setter.Pos()), fmt.Sprint(nSet))
